@@ -102,7 +102,7 @@ CHECKS = {
         technique="Coq proof (Permutation/NoDup reasoning over any shuffle, Q arithmetic for units, real analysis for the metrics) on a model whose unit table is translated from the source + vm_compute correspondence",
         design="5/C06"),
     "C10": dict(
-        text=("28 theorems (closed under the global context) about an executable transition system of imap (Submit / Complete i / "
+        text=("30 theorems (closed under the global context) about an executable transition system of imap (Submit / Complete i / "
               "Yield over a FIFO deque bounded by max_workers), quantified over EVERY trace the system accepts, i.e. every relative "
               "timing, worker count and result pattern: invariant on all reachable states, yielded files always a prefix of the "
               "stream and equal to the specification at termination, at most max_workers futures queued, the submitted tasks never "
@@ -113,7 +113,11 @@ CHECKS = {
               "secondary once in order of first appearance, delivers every matched pair and evicts after the last use. In every "
               "reachable state the i-th value handed to the caller is the value of the i-th task and does not change when the other "
               "tasks of the stream are replaced (task_results_independent, bundle_results_independent: no state shared between "
-              "tasks). Bundles read through the nested collect have an explicit model (bundle_task_result, bundle_refines_task, "
+              "tasks). The ARGUMENTS of the mapped function are proved in a micro-step model of the wrapper over a heap that holds the "
+              "caller's args object and kwargs dict (task_arguments_independent): for every interleaving of the wrappers of a "
+              "stream and every form of args (None, tuple, list), every task's function is called once with exactly the caller's "
+              "arguments in order followed by the content / FileInfo of its own file and the caller's keyword arguments, and the "
+              "caller's objects are unchanged afterwards. Bundles read through the nested collect have an explicit model (bundle_task_result, bundle_refines_task, "
               "bundle_collect_any_member_order, bundle_read_warning_local, bundle_arg_is_member_list, bundle_singleton_arg): a "
               "bundle is warning + None iff error_to_warning and a member is unreadable (or nothing is left to hand on), otherwise "
               "the function applied to the LIST of the members' contents in member order - one entry per member, for a one-file "
@@ -124,7 +128,9 @@ CHECKS = {
               "different directories read while a later task decompresses and finishes); Coq checks that each recorded trace is "
               "accepted by the model and evaluates the specification; results, function arguments (kind bare/list, length, entries "
               "- compared in Coq, observed_arg_agrees_iff) must equal the model's and contents must be those of the task's own "
-              "files; the thorough tier repeats this on process pools through a multiprocessing.Manager."),
+              "files; extra arguments are handed over as tuple / list / None with kwargs for map, imap, collect(func=), icollect(func=) "
+              "and every recorded call is compared in Coq by number, order and kind of its arguments (observed_call_agrees_iff), "
+              "the caller's objects after the call included; the thorough tier repeats this on process pools through a multiprocessing.Manager."),
         note=COMMON_NOTE + " concurrent.futures / threading / multiprocessing (fork, pickling) are modelled by the transition system (hypothesis), exercised by forced "
              "schedules, not verified; real OS scheduling cannot be exhibited by the model; warnings raised on process pools are not counted.",
         technique="Coq proof (invariants by induction over arbitrary action traces of a transition system; explicit bundle model refining the task model) + trace-acceptance correspondence under forced schedules, thread and process pools",
@@ -239,12 +245,16 @@ CHECKS = {
         technique="Coq proof (Z/Q arithmetic with lia, computation on the translated table lifted by lemmas, perturbation margin) + vm_compute correspondence on synthetic tiles + executable binary64 reference model (PrimFloat) compared bit for bit",
         design="5/C20"),
     "C05": dict(
-        text=("22 theorems (closed under the global context) about the model of collocate_filesets - find, the C03 file matching with "
+        text=("26 theorems (closed under the global context) about the model of collocate_filesets - find, the C03 file matching with "
               "coverages floored to seconds and widened by max_interval, array_split over the workers, the per-worker bundling "
               "state machine with final flush - and about a transition system of the bounded result queue: union_over_matches / "
               "pipeline_exact - the collocations emitted over all workers and bundles are exactly collocate(all data of A, all data "
               "of B), each once, for EVERY process count, bundle mode and split of the data into files; an unreadable file removes "
-              "exactly its own pairs; bundling is lossless. The queue over ALL interleavings: at parent exit exactly what was put "
+              "exactly its own pairs; bundling is lossless. The worker's loop is also stated over the flat pair list with pairs that yield nothing at all in "
+              "arbitrary positions (bundling_lossless_with_skips: lagging matches[processed] tags, processed never reaching "
+              "len(matches), the last cached bundle included; worker_items_with_skips ties it to the pipeline model), and a final "
+              "flush that waits for processed == len(matches) is characterised exactly (guarded_final_flush_exact / _loses: the same "
+              "loop without a skipped pair, everything but the worker's last bundle with one). The queue over ALL interleavings: at parent exit exactly what was put "
               "has been yielded (queue_exactly_once), the queue is bounded, from every reachable state an explicit scheduler reaches "
               "the exit within the measure mu <= 20 #items + 5 #workers + 3 (queue_liveness, queue_no_deadlock), any run holds at "
               "most 3 #items + #workers + 1 non-polling actions; the final drain is characterised exactly (drain_needed: a parent "
@@ -261,7 +271,7 @@ CHECKS = {
         technique="Coq proof (NoDup/Permutation refinement to the brute-force collocation; invariants of the bundling loop; queue transition system over all interleavings with liveness by an explicit scheduler and a decreasing measure, exact characterisation of weaker parents) + end-to-end differential runs with schedule perturbations and queue traces evaluated in Coq",
         design="5/C05"),
     "C11": dict(
-        text=("27 theorems (closed under the global context) about an executable model of FileSet write / read / collect / find / move / "
+        text=("33 theorems (closed under the global context) about an executable model of FileSet write / read / collect / find / move / "
               "copy / convert / delete on a disk = finite map path -> content, names from the proved C02 renderer / parser, compression "
               "decided as in files/utils.py: move_conserves (core), progress, write_read, convert_reads_back, written_is_found for "
               "every end spelling C02 proves, delete_exact, dry_run_noop, empty_selection_noop, read / write_with_args, "
@@ -270,12 +280,17 @@ CHECKS = {
               "object), then for ANY set of files the parallel workers got through, every selected file is either moved (converted "
               "content under its target name, original removed unless copy) or untouched at its source with nothing under its target "
               "name, a failing file is always of the second kind, and no other path changes (move_given_sound is the boolean form "
-              "evaluated on the observed tree, move_sequential the one-worker case). Tie: random plus directed histories (year end, "
-              "removed-then-asked, single-file filesets, failing moves, handlers built from bound methods of three signatures) on real "
+              "evaluated on the observed tree, move_sequential the one-worker case); post_reader is a function of the file's own FileInfo "
+              "(read_applies_post_reader_to_own_entry with its fileset[t] / collect / convert forms, decompression_is_transparent: "
+              "never the temporary decompressed file's) and copy_is_independent (after move(copy=True) a later write to the original "
+              "leaves the copy's content, and vice versa). Tie: random plus directed histories (year end, "
+              "removed-then-asked, single-file filesets, failing moves, handlers built from bound methods of three signatures, "
+              "copy-then-overwrite-in-place, post_readers that checksum file_info.path / times / attr on plain and .gz / .bz2 / .xz / .zip "
+              "filesets through read, fileset[t], fileset[s:e], collect, icollect, convert) on real "
               "FileSets in child processes; per-step tree listings canonicalised independently of typhon and compared with the "
               "model's step evaluated in Coq; the object's default dictionaries observed after every call; after a move that raised, "
               "the observed tree must equal the model's move of exactly the files that arrived; a file removed by the object's own "
-              "delete() / move() must never be handed out again by fileset[t]."),
+              "delete() / move() must never be handed out again by fileset[t]; no two paths of the tree may be one inode."),
         note=COMMON_NOTE + " find() is taken as its brute-force filter (C01); worker pools sequentialised (C10); moves whose target names collide are outside the hypotheses and not compared; NetCDF4 only in the thorough tier, single-threaded, in a child process.",
         technique="Coq proof (induction over the selected files, over operation histories and over call histories on a finite-map disk, reuse of the C02 round-trip theorems for all three end kinds) + vm_compute correspondence of per-step tree listings and of laws evaluated on the implementation's output from child-process runs of the real FileSet",
         design="5/C11"),
